@@ -301,8 +301,9 @@ def finish (net : Net) (n : Nat) (stab release : Bool) : Net :=
       net.upd n (fun nd => if nd.state == .transferring then { nd with state := .active } else nd)
     else net
 
-/-- `Join(peer)` at node `j` (single attempt of executeJoin) -/
-def join (net : Net) (j peer : Nat) : Net × Option Err :=
+/-- first half of `Join(peer)`: Inactive→Joining, `RequestToJoin`, neighbour pointers assigned
+    (the state in which the joiner's finger table is still empty) -/
+def joinBegin (net : Net) (j peer : Nat) : Net × Option Err :=
   match net.get j with
   | none => (net, some .unreachable)
   | some nd =>
@@ -310,15 +311,28 @@ def join (net : Net) (j peer : Nat) : Net × Option Err :=
     let net := net.upd j (fun nd => { nd with state := .joining })
     match requestToJoin net FUEL peer j with
     | (net', .error e) => (net'.upd j (fun nd => { nd with state := .inactive }), some e)
-    | (net', .ok (prev, succs)) =>
-      let net' := net'.upd j (fun nd => { nd with succs := succs, pred := some prev })
-      let net' := fixFinger (stabilize net' j) j          -- startTasks
-      let net' := finish net' prev true false             -- advisory to predecessor
-      let net' := net'.upd j (fun nd => { nd with state := .active })
-      let net' := match succs.head? with
-        | some s => finish net' s false true              -- release successor's membership lock
-        | none => net'
-      (net', none)
+    | (net', .ok (prev, succs)) => (net'.upd j (fun nd => { nd with succs := succs, pred := some prev }), none)
+
+/-- second half of `Join`: startTasks (stabilize, fixFinger), advisory to the predecessor,
+    Joining→Active, release of the successor's membership lock -/
+def joinEnd (net : Net) (j : Nat) : Net :=
+  match net.get j with
+  | none => net
+  | some nd =>
+    let net' := fixFinger (stabilize net j) j          -- startTasks
+    let net' := match nd.pred with
+      | some prev => finish net' prev true false        -- advisory to predecessor
+      | none => net'
+    let net' := net'.upd j (fun nd => { nd with state := .active })
+    match nd.succs.head? with
+    | some s => finish net' s false true                -- release successor's membership lock
+    | none => net'
+
+/-- `Join(peer)` at node `j` (single attempt of executeJoin) -/
+def join (net : Net) (j peer : Nat) : Net × Option Err :=
+  match joinBegin net j peer with
+  | (net', some e) => (net', some e)
+  | (net', none) => (joinEnd net' j, none)
 
 /-- `RequestToLeave` at the successor -/
 def requestToLeave (net : Net) (s : Nat) : Net × Option Err :=
